@@ -64,7 +64,7 @@ def in_repo_frame(tb):
 class Ctx:
     """Collects evaluations of contract cases on the real code."""
 
-    def __init__(self, prop, tier, seed, cases, budget_s=None):
+    def __init__(self, prop, tier, seed, cases, budget_s=None, known=None):
         self.prop, self.tier, self.seed = prop, tier, seed
         self.rng = random.Random(seed)
         self.cases = cases
@@ -76,7 +76,9 @@ class Ctx:
         self.per_case = {}
         self.t0 = time.time()
         self.budget_s = budget_s
-        self.max_viol = 40
+        self.max_viol = 3       # witnesses kept per (case, clause, known-class signature)
+        self.known = known or {}
+        self.viol_keys = {}
         self.scopes = []
         self.notes = []
 
@@ -99,8 +101,17 @@ class Ctx:
         if new and len(self.samples) < 6 and (self.per_case[name] in (1, 7)):
             self.samples.append({'case': name, 'input': inp, 'failed_clauses': [f[0] for f in fails]})
         for clause, detail in fails:
-            if len(self.violations) < self.max_viol:
-                self.violations.append({'case': name, 'clause': clause, 'input': inp, 'detail': detail})
+            classes = []
+            for cn, pred in self.known.items():
+                try:
+                    if pred(name, clause, inp):
+                        classes.append(cn)
+                except Exception:
+                    pass
+            k = (name, clause, tuple(classes))
+            self.viol_keys[k] = self.viol_keys.get(k, 0) + 1
+            if self.viol_keys[k] <= self.max_viol:
+                self.violations.append({'case': name, 'clause': clause, 'input': inp, 'detail': detail, 'classes': classes})
         return not fails
 
     def result(self):
